@@ -87,7 +87,7 @@ def run_case(c):
         want += lines_of(pre, fill, n, True)
     if str(rt) != "\n".join(want):
         return "str(RenderTree) differs"
-    for sel in ("val", "name", "nosuch", lambda n: n.val, lambda n: [str(n.b), "z"]):
+    for sel in ("val", "name", "b", "nosuch", lambda n: n.val, lambda n: [str(n.b), "z"]):
         want = []
         for pre, fill, n in exp:
             v = sel(n) if callable(sel) else getattr(n, sel, "")
